@@ -31,11 +31,13 @@ Definition blk_ast (bk : bkind) (k : N) (nm : namestr) (fa : list N) (b : list a
   end.
 
 Definition cst_ast (d : decl) : ast := AConst (d_op d) (d_v d).
-Definition leaf_ast (lk : lkind) (nm : namestr) (fa : list N) (ta : list decl) : ast :=
+Definition targ_ast (a : targ) : ast := match a with TInt d => cst_ast d | TStr b => AStr b end.
+Definition leaf_ast (lk : lkind) (nm : namestr) (fa : list N) (ta : list targ) : ast :=
   match lk with
   | LMutex => AMutex nm (nth 0 fa 0)
   | LEvent => AEvent nm
-  | LOpReg => AOpRegion nm (nth 0 fa 0) (cst_ast (nth 0 ta (mkDecl 0 0 0))) (cst_ast (nth 1 ta (mkDecl 0 0 0)))
+  | LOpReg => AOpRegion nm (nth 0 fa 0) (targ_ast (nth 0 ta (TInt (mkDecl 0 0 0)))) (targ_ast (nth 1 ta (TInt (mkDecl 0 0 0))))
+  | LName => AName nm (targ_ast (nth 0 ta (TInt (mkDecl 0 0 0))))
   end.
 
 Fixpoint item_ast (it : item) : ast :=
@@ -179,8 +181,9 @@ Proof.
   - cbn [shape_ok] in Hs. apply andb_prop in Hs. destruct Hs as [Hl Ht]. apply Nat.eqb_eq in Hl. apply Nat.eqb_eq in Ht.
     rewrite enc_leaf. cbn [item_ast].
     destruct lk; cbn [lk_ws lk_nt length] in Hl, Ht; (destruct fa as [|a0 [|a1 fa]]; try discriminate Hl); (destruct ta as [|c0 [|c1 [|c2 ta]]]; try discriminate Ht);
-      cbn [leaf_ast cst_ast encode nth]; rewrite enc_seg_name; cbn [lfx lk_ws combine enc_fx fw_enc lk_op enc_ta flat_map app]; unfold enc_const;
-      rewrite ?app_nil_r, <- ?app_assoc; reflexivity.
+      repeat match goal with c : targ |- _ => destruct c end;
+      cbn [leaf_ast targ_ast cst_ast encode nth]; rewrite enc_seg_name; cbn [lfx lk_ws combine enc_fx fw_enc lk_op enc_ta enc_targ flat_map app]; unfold enc_const;
+      rewrite ?app_nil_r, <- ?app_assoc; cbn [app]; rewrite <- ?app_assoc; reflexivity.
 Qed.
 
 Lemma encode_items its : forallb shape_ok its = true -> encode_table (map item_ast its) = enc_items its.
@@ -238,11 +241,12 @@ Proof.
   - cbn [shape_ok] in Hs. apply andb_prop in Hs. destruct Hs as [Hl Ht]. pose proof Hl as Hl'. pose proof Ht as Ht'. apply Nat.eqb_eq in Hl. apply Nat.eqb_eq in Ht.
     cbn [item_okb]. rewrite Hl', Ht'. cbn [item_ast] in Hw.
     destruct lk; cbn [lk_ws lk_nt length] in Hl, Ht; (destruct fa as [|a0 [|a1 fa]]; try discriminate Hl); (destruct ta as [|c0 [|c1 [|c2 ta]]]; try discriminate Ht);
-      cbn [leaf_ast cst_ast wf_ast nth is_expr] in Hw;
+      repeat match goal with c : targ |- _ => destruct c end;
+      cbn [leaf_ast targ_ast cst_ast wf_ast nth is_expr] in Hw;
       remember (name_ok (seg_name seg)) as NOK eqn:ENOK;
       repeat (apply andb_prop in Hw; destruct Hw as [Hw ?]); subst NOK;
       destruct (seg_ok_parts seg Hw) as (Hlead & Hseg);
-      rewrite Hlead, Hseg; cbn [andb lfx lk_ws combine fx_okb forallb cst_okb];
+      rewrite Hlead, Hseg; cbn [andb lfx lk_ws combine fx_okb forallb targ_okb]; unfold cst_okb;
       repeat (apply andb_true_intro; split); try assumption; try reflexivity;
       try (match goal with Hv : (_ <? N.shiftl 1 _) = true |- _ => rewrite N.shiftl_1_l in Hv; exact Hv end);
       try (match goal with Hc : is_const_op (d_op ?c) && _ = true |- is_constb (d_op ?c) = true => apply andb_prop in Hc; exact (proj1 Hc) end);
@@ -289,8 +293,8 @@ Proof.
     assert (Hdp : decl_path scope (seg_name seg) = Some (scope ++ [seg])).
     { unfold decl_path, start_scope. cbn [seg_name n_root n_carets n_segs]. destruct (lenN scope <? 0) eqn:E0; [apply N.ltb_lt in E0; lia|].
       change (N.to_nat 0) with 0%nat. rewrite Nat.sub_0_r, firstn_all. reflexivity. }
-    assert (Hcst : forall d, r_expr e scope (cst_ast d) = cst_tokens d).
-    { intros d. unfold cst_ast, cst_tokens. cbn [r_expr]. unfold const_tokens, const_val, tok_const. destruct (const_bytes (d_op d)); reflexivity. }
+    assert (Hcst : forall a, r_expr e scope (targ_ast a) = targ_tokens a).
+    { intros [d|b]; [|reflexivity]. unfold targ_ast, targ_tokens, cst_ast, cst_tokens. cbn [r_expr]. unfold const_tokens, const_val, tok_const. destruct (const_bytes (d_op d)); reflexivity. }
     cbn [item_ast sentry].
     destruct lk; cbn [lk_ws lk_nt length] in Hl, Ht; (destruct fa as [|a0 [|a1 fa]]; try discriminate Hl); (destruct ta as [|c0 [|c1 [|c2 ta]]]; try discriminate Ht);
       cbn [leaf_ast entries nth]; rewrite Hdp; rewrite ?Hcst; unfold leaf_entry; cbn [lfx lk_ws combine flat_map fw_op lk_op app];
@@ -325,7 +329,7 @@ Proof.
   destruct default_rep as (t0 & Et0 & H0). rewrite Et0. cbn [load_tables]. rewrite (encode_items its Hshape).
   destruct (parse_f1 its t0 Hok Hfr H0) as (s' & gF & plF & Eparse & HF & DF & Etb).
   rewrite Eparse. cbn [load_tables app]. change (0 =? 0) with true. cbv iota.
-  rewrite (view_f1 (p_tree s') gF plF HF _ its DF Hok (root_len _ _ _ DF)).
+  rewrite (view_f1 (p_tree s') gF plF HF [table_image (enc_items its)] its (hdr_of (enc_items its)) DF Hok (root_len _ _ _ DF) ltac:(rewrite table_image_hdr; reflexivity) eq_refl).
   unfold ns. cbn [flat_map]. rewrite app_nil_r, (entries_items _ its Hshape).
   f_equal. apply sort_perm. apply ventries_perm.
 Qed.
